@@ -83,12 +83,14 @@ pub fn guard(case: u64, probe: u64, f: impl FnOnce()) {
 
 /// deserialise, serialise, and round-trip once more
 pub fn p_deser<T: serde::de::DeserializeOwned + serde::Serialize>(case: u64, probe: u64, text: &str) {
-    let mut ev = json!({"ev": "deser", "case": case, "probe": probe, "ok": false,
+    let mut ev = json!({"ev": "deser", "case": case, "probe": probe, "ok": false, "rt_equal": false,
                         "ser_ok": false, "out": tagged_na(), "rt2_ok": false, "out2": tagged_na()});
     if let Ok(x) = serde_json::from_str::<T>(text) {
         ev["ok"] = json!(true);
         if let Ok(w) = serde_json::to_value(&x) {
             ev["ser_ok"] = json!(true);
+            // the serialised value equals the input document (same keys, same values)
+            ev["rt_equal"] = json!(serde_json::from_str::<Value>(text).ok().as_ref() == Some(&w));
             ev["out"] = tag(&w);
             if let Ok(x2) = serde_json::from_value::<T>(w) {
                 if let Ok(w2) = serde_json::to_value(&x2) {
